@@ -402,6 +402,23 @@ func c14evictionLRU(r *simkit.Run) {
 		}
 	}
 	drawRateSource(rt)
+	// by draw the caller's rate extractor changes plan over time (hour plan, then second plan, ...): an
+	// entry's lifetime then follows the plan in force at its last access. The oracle knows only that a
+	// longer period never means a shorter lifetime: the least recently used source is certainly the one
+	// nearest to expiry when no tracked source was last seen under a shorter period than it was.
+	var regimes [][]rateSpec
+	cur := 0
+	if rapid.IntRange(0, 2).Draw(rt, "plans-change") == 0 {
+		for k := rapid.IntRange(2, 3).Draw(rt, "plans"); k > 0; k-- {
+			avg := int64(rapid.IntRange(1, 3).Draw(rt, "average"))
+			regimes = append(regimes, []rateSpec{{rapid.SampledFrom([]time.Duration{time.Second, 10 * time.Second, time.Minute, time.Hour}).Draw(rt, "plan-period"), avg, int64(rapid.IntRange(1, int(5*avg)).Draw(rt, "burst"))}})
+		}
+		rates = regimes[0]
+		rateOverride = func() ([]rateSpec, error) { return regimes[cur], nil }
+		defer func() { rateOverride = nil }()
+	}
+	lastPeriod := map[int]time.Duration{}
+	undetermined, planChanges := 0, 0
 	_, unfreeze := freeze(rt)
 	defer unfreeze()
 	start := clock.Now()
@@ -439,13 +456,35 @@ func c14evictionLRU(r *simkit.Run) {
 		}
 		clock.Advance(d)
 		r.SimTime(d)
+		if regimes != nil && rapid.IntRange(0, 2).Draw(rt, "switch-plan") == 0 {
+			if n := rapid.IntRange(0, len(regimes)-1).Draw(rt, "plan"); n != cur {
+				cur = n
+				rates = regimes[cur]
+				planChanges++
+			}
+		}
 		s := rapid.IntRange(0, nsrc-1).Draw(rt, "src")
 		now := clock.Now().Sub(start)
 		if la, ok := lastAccess[s]; ok && now-la > 10*maxPeriod(rates)+2*time.Second {
 			expiries++
 		}
+		if _, tracked := lastPeriod[s]; !tracked && len(lru) >= capacity {
+			// somebody is forgotten now: is it certain who?
+			certain := true
+			for _, x := range lru[1:] {
+				if lastPeriod[x] < lastPeriod[lru[0]] {
+					certain = false
+				}
+			}
+			if !certain {
+				undetermined++
+				break
+			}
+		}
 		lastAccess[s] = now
+		lastPeriod[s] = maxPeriod(rates)
 		if e := touch(s); e >= 0 {
+			delete(lastPeriod, e)
 			B[e] = newTLim(rt, rates, 1) // the forgotten source starts afresh
 			evictions++
 		}
@@ -475,6 +514,8 @@ func c14evictionLRU(r *simkit.Run) {
 	}
 	r.ProbeN("evictions", evictions)
 	r.ProbeN("return-after-entry-lifetime", expiries)
+	r.ProbeN("plan-changed-between-requests", planChanges)
+	r.ProbeN("victim-undetermined-run-ended", undetermined)
 	r.Probe("rate-eviction-lru")
 	r.Sample(func() any {
 		return map[string]any{"mode": "rate-eviction-lru", "rates": fmt.Sprint(rates), "sources": nsrc, "capacity": capacity, "evictions": evictions, "first_ops": trace}
